@@ -239,3 +239,79 @@ pub fn parse_keyframes_selector(lexer: VLexer) -> Result<usize, Span> {
 pub fn parse_media_query_list(lexer: VLexer) -> Result<Vec<MediaQuery>, Span> {
     err_span(MediaQueryParser::new(lexer.0).parse())
 }
+
+// ---------------------------------------------------------------------------
+// units
+// ---------------------------------------------------------------------------
+
+pub use crate::unit::Unit;
+
+/// Every entry `(to, from, factor)` of `UNIT_CONVERSION_TABLE` (iteration order is irrelevant:
+/// callers sort). Used natively by the table dumper, never under the model checker.
+pub fn unit_conversion_entries() -> Vec<(Unit, Unit, f64)> {
+    let mut out = Vec::new();
+    for (to, inner) in crate::unit::UNIT_CONVERSION_TABLE.iter() {
+        for (from, factor) in inner.iter() {
+            out.push((to.clone(), from.clone(), *factor));
+        }
+    }
+    out
+}
+
+pub fn unit_comparable(a: &Unit, b: &Unit) -> bool {
+    a.comparable(b)
+}
+
+/// Members of the known-compatibility set `unit` belongs to (empty if none).
+pub fn known_compatibilities(unit: &Unit) -> Vec<Unit> {
+    match crate::unit::known_compatibilities_by_unit(unit) {
+        Some(set) => set.iter().cloned().collect(),
+        None => Vec::new(),
+    }
+}
+
+// ---------------------------------------------------------------------------
+// binary operators on values
+// ---------------------------------------------------------------------------
+
+pub use crate::common::BinaryOp;
+pub use crate::value::Value;
+
+/// The evaluator's binary-operator kernels (evaluate/bin_op.rs), one wrapper per operator so that a
+/// harness only pulls in the code of the operator it drives.
+pub fn op_add(left: Value, right: Value, options: &crate::Options<'_>, span: Span) -> Result<Value, Span> {
+    err_span(crate::evaluate::verif_reexport::add(left, right, options, span))
+}
+
+pub fn op_sub(left: Value, right: Value, options: &crate::Options<'_>, span: Span) -> Result<Value, Span> {
+    err_span(crate::evaluate::verif_reexport::sub(left, right, options, span))
+}
+
+pub fn op_mul(left: Value, right: Value, options: &crate::Options<'_>, span: Span) -> Result<Value, Span> {
+    err_span(crate::evaluate::verif_reexport::mul(left, right, options, span))
+}
+
+pub fn op_div(left: Value, right: Value, options: &crate::Options<'_>, span: Span) -> Result<Value, Span> {
+    err_span(crate::evaluate::verif_reexport::div(left, right, options, span))
+}
+
+pub fn op_rem(left: Value, right: Value, options: &crate::Options<'_>, span: Span) -> Result<Value, Span> {
+    err_span(crate::evaluate::verif_reexport::rem(left, right, options, span))
+}
+
+/// `op` must be one of `< <= > >=`
+pub fn op_cmp(op: BinaryOp, left: &Value, right: &Value, options: &crate::Options<'_>, span: Span) -> Result<Value, Span> {
+    err_span(crate::evaluate::verif_reexport::cmp(left, right, options, span, op))
+}
+
+pub fn op_single_eq(left: &Value, right: &Value, options: &crate::Options<'_>, span: Span) -> Result<Value, Span> {
+    err_span(crate::evaluate::verif_reexport::single_eq(left, right, options, span))
+}
+
+pub fn value_eq(left: &Value, right: &Value) -> bool {
+    left == right
+}
+
+pub fn value_not_equals(left: &Value, right: &Value) -> bool {
+    left.not_equals(right)
+}
